@@ -1,13 +1,13 @@
 package simkit
 
 import (
-	"strings"
 	"encoding/json"
 	"fmt"
 	"os"
 	"runtime"
 	"runtime/debug"
 	"strconv"
+	"strings"
 	"sync/atomic"
 	"testing"
 	"time"
@@ -15,23 +15,23 @@ import (
 
 // Replay is the replay file written for a violation.
 type Replay struct {
-	Property   string    `json:"property"`
-	Harness    string    `json:"harness,omitempty"` // registered harness that ran (differs from the property for shared populations, e.g. the cluster)
-	Focus      string    `json:"focus,omitempty"`   // VERIF_FOCUS the run was made with
-	Tier       string    `json:"tier"`
-	Seed       uint64    `json:"seed"`
-	RunIndex   uint64    `json:"run_index"`
-	RunSeed    uint64    `json:"run_seed"`
-	Tape       []uint32  `json:"tape"`
-	OrigTapeLen int      `json:"orig_tape_len"`
-	Violation  Violation `json:"violation"`
-	Config     []KV      `json:"config"`
-	Ops        []string  `json:"ops"`
-	Events     []string  `json:"events"`
-	EventHash  string    `json:"event_hash"`
-	ShrinkRuns int       `json:"shrink_runs"`
-	GoVersion  string    `json:"go_version"`
-	ReplayVerified *bool `json:"replay_verified,omitempty"`
+	Property       string    `json:"property"`
+	Harness        string    `json:"harness,omitempty"` // registered harness that ran (differs from the property for shared populations, e.g. the cluster)
+	Focus          string    `json:"focus,omitempty"`   // VERIF_FOCUS the run was made with
+	Tier           string    `json:"tier"`
+	Seed           uint64    `json:"seed"`
+	RunIndex       uint64    `json:"run_index"`
+	RunSeed        uint64    `json:"run_seed"`
+	Tape           []uint32  `json:"tape"`
+	OrigTapeLen    int       `json:"orig_tape_len"`
+	Violation      Violation `json:"violation"`
+	Config         []KV      `json:"config"`
+	Ops            []string  `json:"ops"`
+	Events         []string  `json:"events"`
+	EventHash      string    `json:"event_hash"`
+	ShrinkRuns     int       `json:"shrink_runs"`
+	GoVersion      string    `json:"go_version"`
+	ReplayVerified *bool     `json:"replay_verified,omitempty"`
 }
 
 // Sample is a fully written-out run for the evidence file.
@@ -47,30 +47,30 @@ type Sample struct {
 
 // Result is what one worker process writes.
 type Result struct {
-	Property   string         `json:"property"`
-	Runs       int            `json:"runs"`
-	Steps      int64          `json:"kernel_steps"`
-	SimNs      int64          `json:"sim_ns"`
-	Faults     map[string]int `json:"faults"`
-	Probes     map[string]int `json:"probes"`
-	Hashes     []string       `json:"hashes"` // event-log hashes of non-trivial runs
-	AllHashes  int            `json:"all_hashes"`
-	Samples    []Sample       `json:"samples"`
-	Violations []Replay       `json:"violations"`
-	Known      []Violation    `json:"known"`
-	Checks     int64          `json:"oracle_checks"`
-	Truncated  int            `json:"truncated"`
-	Stalled    int            `json:"stalled"`
-	WouldBlock int            `json:"would_block"`
-	Trouble    string         `json:"trouble,omitempty"`
-	WallS      float64        `json:"wall_s"`
-	Real       []string       `json:"real"`
-	Stub       []string       `json:"stub"`
-	Rule       string         `json:"rule"`
-	Assumptions []string      `json:"assumptions"`
-	ReplayOK   *bool          `json:"replay_ok,omitempty"`
-	ReplayHash string         `json:"replay_hash,omitempty"`
-	DetHashes  []string       `json:"det_hashes,omitempty"`
+	Property    string         `json:"property"`
+	Runs        int            `json:"runs"`
+	Steps       int64          `json:"kernel_steps"`
+	SimNs       int64          `json:"sim_ns"`
+	Faults      map[string]int `json:"faults"`
+	Probes      map[string]int `json:"probes"`
+	Hashes      []string       `json:"hashes"` // event-log hashes of non-trivial runs
+	AllHashes   int            `json:"all_hashes"`
+	Samples     []Sample       `json:"samples"`
+	Violations  []Replay       `json:"violations"`
+	Known       []Violation    `json:"known"`
+	Checks      int64          `json:"oracle_checks"`
+	Truncated   int            `json:"truncated"`
+	Stalled     int            `json:"stalled"`
+	WouldBlock  int            `json:"would_block"`
+	Trouble     string         `json:"trouble,omitempty"`
+	WallS       float64        `json:"wall_s"`
+	Real        []string       `json:"real"`
+	Stub        []string       `json:"stub"`
+	Rule        string         `json:"rule"`
+	Assumptions []string       `json:"assumptions"`
+	ReplayOK    *bool          `json:"replay_ok,omitempty"`
+	ReplayHash  string         `json:"replay_hash,omitempty"`
+	DetHashes   []string       `json:"det_hashes,omitempty"`
 }
 
 type knownEntry struct {
